@@ -494,6 +494,11 @@ def lean_ty(t):
             return "Option " + paren(lean_ty(t[1]))
         if t[0] == "res":
             return "Except String " + paren(lean_ty(t[1]))
+        # BEGIN P03: a struct registered with an underlying type other than an array of elements prints as that type
+        if t[0] == "struct" and t[1] in G.structs and G.structs[t[1]][0] in ("field", "view") \
+                and G.structs[t[1]][2] != ("sarray", "bfe", G.structs[t[1]][2][2] if isinstance(G.structs[t[1]][2], tuple) and len(G.structs[t[1]][2]) > 2 else None):
+            return lean_ty(G.structs[t[1]][2])
+        # END P03
         if t[0] == "struct":
             return "List Nat"
         if t[0] == "err":
@@ -767,6 +772,12 @@ class CEmitter(NatEmitter):
                 return a, G.structs[aty[1]][2], aok
             if isinstance(aty, tuple) and aty[0] == "record" and e[2] in aty[1]:
                 return f"{a}_{e[2]}", aty[1][e[2]], aok
+            # BEGIN P03
+            if isinstance(aty, tuple) and aty[0] == "struct" and G.structs.get(aty[1], (None,))[0] == "view":
+                if G.structs[aty[1]][1] == e[2]:
+                    return a, G.structs[aty[1]][2], aok
+                raise Unsupported(f"field .{e[2]} of {aty[1]}: the struct is only modelled through its field `{G.structs[aty[1]][1]}`")
+            # END P03
             raise Unsupported(f"field .{e[2]} of {aty}")
         if k == "structlit":
             name = e[1]
@@ -1949,6 +1960,90 @@ def run_outside(status, read_src, table):
             scratch["failed"].get(f"fn {lname}", "refused")
 
 
+# BEGIN P03: C04 Merkle index arithmetic (digests opaque: a `Digest` is its five words, never inspected here)
+def merkle_setup(read_src):
+    """`MerkleTree { nodes: Vec<Digest> }` is its node vector; `PartialMerkleTree` is seen through `tree_height: usize` only
+    (reading any other field is refused); both shapes are read from the source"""
+    mt = read_src(MT_REL) or ""
+    if re.search(r"pub\s+struct\s+MerkleTree\s*\{\s*nodes\s*:\s*Vec<Digest>\s*,?\s*\}", mt) and "Digest" in G.structs:
+        G.structs["MerkleTree"] = ("field", "nodes", ("vec", ("struct", "Digest")))
+    m = re.search(r"struct\s+PartialMerkleTree\s*\{([^}]*)\}", mt)
+    if m and re.search(r"(^|,)\s*tree_height\s*:\s*usize\s*(,|$)", m.group(1).strip()):
+        G.structs["PartialMerkleTree"] = ("view", "tree_height", "usize")
+    return mt
+
+
+def merkle_specs(mt):
+    M, PM = "MerkleTree", "PartialMerkleTree"
+    alias = None
+    if re.search(r"type\s+Result<T>\s*=\s*result::Result<T,\s*MerkleTreeError>\s*;", mt):
+        alias = "MerkleTreeError"
+    a, pa = r"impl MerkleTree \{", r"impl PartialMerkleTree \{"
+    return [
+        dict(lname="mt_num_leafs", rel=MT_REL, src=mt, fn="num_leafs", anchor=a, owner=M, self_ty=("struct", M),
+             reg=("fun", M, "num_leafs"), result_alias=alias, err=alias),
+        dict(lname="mt_height", rel=MT_REL, src=mt, fn="height", anchor=a, owner=M, self_ty=("struct", M),
+             reg=("fun", M, "height"), result_alias=alias, err=alias),
+        dict(lname="mt_node", rel=MT_REL, src=mt, fn="node", anchor=a, owner=M, self_ty=("struct", M),
+             reg=("fun", M, "node"), result_alias=alias, err=alias),
+        dict(lname="mt_leaf", rel=MT_REL, src=mt, fn="leaf", anchor=a, owner=M, self_ty=("struct", M),
+             reg=("fun", M, "leaf"), result_alias=alias, err=alias),
+        dict(lname="pmt_num_leafs", rel=MT_REL, src=mt, fn="num_leafs", anchor=pa, owner=PM, self_ty=("struct", PM),
+             reg=("fun", PM, "num_leafs"), result_alias=alias, err=alias),
+    ]
+
+
+# the two list decoders of bfield_codec.rs (C03/C13): attempted on every run, the reason of the refusal is recorded
+CODEC_LIST_OUTSIDE = [
+    ("codec_decode_list_static", COD_REL, "bfield_codec_decode_list_with_statically_sized_items", None, None, None),
+    ("codec_decode_list_dynamic", COD_REL, "bfield_codec_decode_list_with_dynamically_sized_items", None, None, None),
+]
+
+
+LIST_DECODER_OBSTACLES = [
+    (r"\bfn\s+\w+\s*<\s*T\s*:\s*BFieldCodec\s*>",
+     "generic over `T: BFieldCodec` (the subset has no type parameters: `Vec<T>` has no Lean type here)"),
+    (r"\bT::static_length\s*\(\s*\)", "`T::static_length()` is a call through the trait bound (would have to become a parameter `Option Nat`)"),
+    (r"\bT::decode\s*\(", "`T::decode(..)` is a call through the trait bound (would have to become a parameter `List Nat -> Except String a`)"),
+    (r"\blet\s+mut\s+\w+\s*=\s*vec!\[\s*\]\s*;", "`let mut vec = vec![]`: the element type is only determined by a later `push` (every value must have a determined type)"),
+    (r"\blet\s+mut\s+\w+\s*=\s*[0-9_]+\s*;", "`let mut sequence_index = 0`: integer literal whose type is only determined by later uses"),
+    (r"\bfor\b[^{]*\{(?:[^{}]|\{[^{}]*\})*\?\s*;", "`for` loop whose body exits early through `?` / `return Err(..)` (only straight-line loop bodies are in the subset)"),
+    (r"map_err\(\s*\|\s*e\s*\|\s*e\.into\(\)\s*\)", "`.map_err(|e| e.into())?`: the closure uses its argument (`T::Error: Into<Box<dyn Error>>`, then `#[from]`); only `|_| Variant` closures are in the subset"),
+    (r"\*\s*T::decode", "`*T::decode(..)`: dereference of the returned `Box<T>`"),
+]
+
+
+def list_decoder_refusals(status, read_src):
+    """the two list decoders are attempted like every other function (first obstacle reported by the translator itself);
+    in addition every construct of their *current* text that is outside the subset is listed, so the record says precisely
+    why they are refused.  Nothing is emitted for them."""
+    run_outside(status, read_src, CODEC_LIST_OUTSIDE)
+    cod = read_src(COD_REL) or ""
+    for lname, _rel, fn, _a, _o, _s in CODEC_LIST_OUTSIDE:
+        try:
+            params_text, ret_text, body = find_fn(cod, fn, None)
+            m = re.search(r"\bfn\s+" + re.escape(fn) + r"\b[^{]*", cod)
+            text = (m.group(0) if m else "") + "{" + body + "}"
+        except Exception as ex:
+            status.setdefault("outside_subset", {})[lname] = f"conv: function not found ({ex})"
+            continue
+        found = [why for rx, why in LIST_DECODER_OBSTACLES if re.search(rx, text, flags=re.S)]
+        first = status.get("outside_subset", {}).get(lname, "refused")
+        if first.startswith("translatable now"):
+            continue
+        status["outside_subset"][lname] = first + " | constructs outside the subset: " + "; ".join(found)
+
+
+def run_p03(status, changed, read_src):
+    mt = merkle_setup(read_src)
+    texts = []
+    for spec in merkle_specs(mt):
+        translate_one(spec, status, texts)
+    emit_file(changed, "MerkleIndex", MT_REL, ["TF.Gen.Consts", "TF.Model.RustStdConv"], texts)
+    list_decoder_refusals(status, read_src)
+# END P03
+
+
 def run(status, changed, fns, read_src):
     """called at the end of rs2lean_loops.run; `fns`: registry of rs2lean.py"""
     setup_registry(status, fns, read_src)
@@ -1962,4 +2057,5 @@ def run(status, changed, fns, read_src):
     for spec in codec_specs(read_src, status):
         translate_one(spec, status, texts)
     emit_file(changed, "CodecLeaves", ", ".join((COD_REL, BFE_REL)), ["TF.Gen.ConvLoops"], texts)
+    run_p03(status, changed, read_src)      # P03
 # END BT5
